@@ -106,6 +106,71 @@ func runC10Order(c *Ctx) {
 					}
 				}
 			}
+			// loop-carried variables: a value assigned in the body that survives to
+			// the next iteration / the code after the loop. Order-independent only
+			// when every assignment stores one and the same constant (a flag), or
+			// accumulates commutatively (+, |, &, *, ^, min/max) onto the variable.
+			inLoop := func(b *ssa.BasicBlock) bool { return b == h || (h.Dominates(b) && reaches(b, h, nil)) }
+			for _, phi := range headerPhis(h) {
+				var leaves []ssa.Value
+				seenV := map[ssa.Value]bool{}
+				var walk func(v ssa.Value)
+				walk = func(v ssa.Value) {
+					if seenV[v] {
+						return
+					}
+					seenV[v] = true
+					if v == ssa.Value(phi) {
+						return
+					}
+					if p2, ok := v.(*ssa.Phi); ok && inLoop(p2.Block()) {
+						for _, e := range p2.Edges {
+							walk(e)
+						}
+						return
+					}
+					leaves = append(leaves, v)
+				}
+				for i, e := range phi.Edges {
+					if inLoop(phi.Block().Preds[i]) {
+						walk(e)
+					}
+				}
+				consts := map[string]bool{}
+				for _, lf := range leaves {
+					switch x := lf.(type) {
+					case *ssa.Const:
+						consts[x.String()] = true
+						continue
+					case *ssa.BinOp:
+						switch x.Op {
+						case token.ADD, token.OR, token.AND, token.MUL, token.XOR, token.LOR, token.LAND:
+							if dependsOnPhi(x.X, phi) || dependsOnPhi(x.Y, phi) {
+								continue
+							}
+						}
+					case *ssa.Call:
+						n := calleeName(x)
+						if strings.HasSuffix(n, "fastMin") || strings.HasSuffix(n, "fastMax") || n == "math.Min" || n == "math.Max" || strings.HasPrefix(n, "builtin m") {
+							continue
+						}
+						if bi, ok := x.Call.Value.(*ssa.Builtin); ok && bi.Name() == "append" {
+							continue // judged by the append rule above
+						}
+					}
+					if _, isNext := lf.(*ssa.Extract); isNext || !isConstLike(lf) {
+						sensitive = append(sensitive, "assigns a loop-dependent value to a variable that outlives the iteration (last one wins) at "+c.P.Pos(lf.Pos()))
+					}
+				}
+				if len(consts) > 1 {
+					var ks []string
+					for k := range consts {
+						ks = append(ks, k)
+					}
+					sort.Strings(ks)
+					sensitive = append(sensitive, "assigns different constants ("+strings.Join(ks, ", ")+") to one variable in different iterations (last one wins)")
+				}
+			}
 			root := FuncName(rootFunc(f))
 			if len(sensitive) == 0 {
 				c.OK(rg.Pos(), fn, construct, "body has no order-carrying effect (no append to an outer slice, no loop-dependent early return)")
@@ -345,3 +410,71 @@ func clausePanics(cc *ast.CaseClause, info *types.Info) bool {
 }
 
 var _ = token.NoPos
+
+// headerPhis: the phis of the loop whose iteration block is h — in h itself and
+// in the block that jumps to it from outside and receives the back edge.
+func headerPhis(h *ssa.BasicBlock) []*ssa.Phi {
+	var out []*ssa.Phi
+	cands := []*ssa.BasicBlock{h}
+	for _, p := range h.Preds {
+		cands = append(cands, p)
+	}
+	seen := map[*ssa.BasicBlock]bool{}
+	for _, b := range cands {
+		if seen[b] {
+			continue
+		}
+		seen[b] = true
+		// a loop head: has a predecessor inside the loop and one outside
+		in, outp := false, false
+		for _, p := range b.Preds {
+			if p == h || (h.Dominates(p) && reaches(p, h, nil)) {
+				in = true
+			} else {
+				outp = true
+			}
+		}
+		if !in || !outp {
+			continue
+		}
+		for _, ins := range b.Instrs {
+			if phi, ok := ins.(*ssa.Phi); ok {
+				out = append(out, phi)
+			}
+		}
+	}
+	return out
+}
+
+func dependsOnPhi(v ssa.Value, phi *ssa.Phi) bool {
+	seen := map[ssa.Value]bool{}
+	var rec func(v ssa.Value, d int) bool
+	rec = func(v ssa.Value, d int) bool {
+		if v == ssa.Value(phi) {
+			return true
+		}
+		if d > 6 || seen[v] {
+			return false
+		}
+		seen[v] = true
+		switch x := v.(type) {
+		case *ssa.Phi:
+			for _, e := range x.Edges {
+				if rec(e, d+1) {
+					return true
+				}
+			}
+		case *ssa.Convert:
+			return rec(x.X, d+1)
+		case *ssa.BinOp:
+			return rec(x.X, d+1) || rec(x.Y, d+1)
+		}
+		return false
+	}
+	return rec(v, 0)
+}
+
+func isConstLike(v ssa.Value) bool {
+	_, ok := v.(*ssa.Const)
+	return ok
+}
